@@ -194,28 +194,75 @@ def Supported (inv : Inv) : Prop := inv.args ≠ [] ∧ (inv.caps.map (·.1) ++ 
 
 instance (inv : Inv) : Decidable (Supported inv) := by unfold Supported; exact inferInstance
 
-/-! ### The local macro `name!` (both call syntaxes) -/
+/-! ### The local macro `name!` (both call syntaxes), as a matcher on the call's token stream -/
 
-/-- State of expanding one recursive call `name!(e₁, …, eₙ)` / `name!(e₁, …, eₙ,)`; `α` = the user's
-    argument expressions (opaque). -/
+/-- Tokens between the parentheses of a recursive call `name!( … )`: `α` = the user's argument
+    expressions (each consumed whole by an `$x:expr` fragment), and commas. -/
+inductive CTok (α : Type) where
+  | expr (e : α)
+  | comma
+  deriving Repr
+
+/-- What the user writes: `e₁, e₂, …, eₙ` and, if `tc` (and n ≥ 1), a trailing comma. -/
+def callToks {α} : List α → Bool → List (CTok α)
+  | [], _ => []
+  | [x], tc => .expr x :: (if tc then [.comma] else [])
+  | x :: y :: xs, tc => .expr x :: .comma :: callToks (y :: xs) tc
+
+/-- `$(,$x:expr)*` up to the end of the input. `, <end>` does not match: the matcher has entered the
+    repetition and runs out of tokens (rustc: a soft failure, the next arm is tried). -/
+def matchCommaExprs {α} : List (CTok α) → Option (List α)
+  | [] => some []
+  | .comma :: .expr x :: rest => (matchCommaExprs rest).map (x :: ·)
+  | _ => none
+
+/-- Pattern of arm 1: `($xf:expr $(,$x:expr)*)`. -/
+def matchArm1 {α} : List (CTok α) → Option (α × List α)
+  | .expr xf :: rest => (matchCommaExprs rest).map (xf, ·)
+  | _ => none
+
+/-- Pattern of arm 2: `($($x:expr,)*)`. -/
+def matchArm2 {α} : List (CTok α) → Option (List α)
+  | [] => some []
+  | .expr x :: .comma :: rest => (matchArm2 rest).map (x :: ·)
+  | _ => none
+
+/-- Transcription of arm 1: `$name!($xf, $($x,)*)` — the tokens of the re-invocation. -/
+def transcribeArm1 {α} (xf : α) (xs : List α) : List (CTok α) :=
+  .expr xf :: .comma :: xs.flatMap (fun x => [.expr x, .comma])
+
+/-- State of expanding one recursive call. -/
 inductive CallSt (α : Type) where
-  | inv (exprs : List α) (trailingComma : Bool)
-  | done (userArgs : List α) (tail : List (Name × Kind))    -- `_lambda_name_(userArgs…, tail…)`
+  | inv (toks : List (CTok α))                               -- `name!(toks…)`
+  | done (userArgs : List α) (tail : List (Name × Kind))     -- `_lambda_name_(userArgs…, tail…)`
 
-/-- The two arms of the local macro, in source order.
-    arm 1 `($xf:expr $(,$x:expr)*) => name!($xf, $($x,)*)` matches exactly the non-empty comma-separated lists
-          WITHOUT trailing comma (with one, the matcher runs out of tokens inside the repetition and falls through);
-    arm 2 `($($x:expr,)*) => _lambda_name_($($x,)* consts… muts…)` matches the comma-TERMINATED lists (incl. the empty one). -/
+/-- One expansion step of the local macro: the two arms in source order, first match wins.
+    arm 1 `($xf:expr $(,$x:expr)*) => { $name!($xf, $($x,)*) }`
+    arm 2 `($($x:expr,)*)          => { _lambda_name_($($x,)* $($const_var_name,)* $($mut_var_name,)*) }` -/
 def callStep {α} (e : Expansion) : CallSt α → Option (CallSt α)
-  | .inv (x :: xs) false => some (.inv (x :: xs) true)
-  | .inv [] false => some (.done [] e.recCallTail)
-  | .inv (x :: xs) true => some (.done (x :: xs) e.recCallTail)
-  | .inv [] true => none                       -- `name!(,)`: `$xf:expr` meets `,`
+  | .inv toks =>
+    match matchArm1 toks with
+    | some (xf, xs) => some (.inv (transcribeArm1 xf xs))
+    | none =>
+      match matchArm2 toks with
+      | some xs => some (.done xs e.recCallTail)
+      | none => none
   | .done _ _ => none
 
 def callIter {α} (e : Expansion) : Nat → CallSt α → Option (CallSt α)
   | 0, st => some st
   | n + 1, st => (callStep e st).bind (callIter e n)
+
+/-- Expand a call until the inner fn is called, within `fuel` macro steps: the user's expressions as
+    they arrive at `_lambda_name_`, the names appended after them, and the number of steps used. -/
+def callRun {α} (e : Expansion) : Nat → Nat → CallSt α → Option (List α × List (Name × Kind) × Nat)
+  | _, used, .done us t => some (us, t, used)
+  | 0, _, _ => none
+  | fuel + 1, used, st => (callStep e st).bind (callRun e fuel (used + 1))
+
+/-- What a recursive call written with the expressions `xs` (trailing comma iff `tc`) expands to. -/
+def expandCall {α} (e : Expansion) (xs : List α) (tc : Bool) : Option (List α × List (Name × Kind)) :=
+  (callRun e 2 0 (.inv (callToks xs tc))).map fun r => (r.1, r.2.1)
 
 /-! ## Part 2: semantics of the emitted wiring vs explicit recursion -/
 
@@ -233,17 +280,18 @@ inductive Err where
   | notMutable (n : Name)    -- assignment through something that is not `&mut`
   | arity                    -- wrong number of arguments in a call
   | kind (n : Name)          -- argument of the wrong kind for parameter `n` (value / `&` / `&mut` mismatch)
+  | noRule                   -- no arm of the local macro matches the call's tokens
   deriving Repr, DecidableEq, Inhabited
 
 /-- An abstract body of the recursive closure: a finite interaction tree. It may read any name in
     scope (argument or capture; references are auto-dereferenced), assign through a mutable capture,
-    call itself with any argument values any number of times, and continue depending on the results.
+    call itself with any argument values any number of times in either call syntax, and continue depending on the results.
     Every Lean function into this type is a body, so the theorems quantify over all such bodies. -/
 inductive Body where
   | ret (v : Val)
   | read (n : Name) (k : Val → Body)
   | write (n : Name) (v : Val) (k : Body)
-  | call (vs : List Val) (k : Val → Body)
+  | call (tc : Bool) (vs : List Val) (k : Val → Body)     -- `name!(vs…)`, written with a trailing comma iff `tc`
 
 abbrev Res := Except Err (Val × Store)
 
@@ -269,7 +317,7 @@ def runE (caps : List (Name × Bool)) (callee : List Val → Store → Res) (af 
       | some true => runE caps callee af k (s.set n v)
       | some false => .error (.notMutable n)
       | none => .error (.unbound n)
-  | .call vs k, s =>
+  | .call _ vs k, s =>
     match callee vs s with
     | .ok (r, s') => runE caps callee af (k r) s'
     | .error e => .error e
@@ -341,7 +389,8 @@ def passNames (fr : Frame) : List (Name × Kind) → Except Err (List Slot)
       | .error e => .error e
 
 /-- One activation of `_lambda_name_`: names are looked up in the frame of its parameters. A recursive
-    call goes through the local macro: user expressions first, then `recCallTail` evaluated in this frame. -/
+    call goes through the local macro (`expandCall`, both arms, on the tokens of the call as written): user
+    expressions first, then the appended names evaluated in this frame. -/
 def runG (e : Expansion) (callee : List Slot → Store → Res) (fr : Frame) : Body → Store → Res
   | .ret v, s => .ok (v, s)
   | .read n k, s =>
@@ -354,13 +403,16 @@ def runG (e : Expansion) (callee : List Slot → Store → Res) (fr : Frame) : B
     | some (.ref l true) => runG e callee fr k (s.set l v)
     | some _ => .error (.notMutable n)
     | none => .error (.unbound n)
-  | .call vs k, s =>
-    match passNames fr e.recCallTail with
-    | .error er => .error er
-    | .ok tail =>
-      match callee (vs.map Slot.val ++ tail) s with
-      | .ok (r, s') => runG e callee fr (k r) s'
+  | .call tc vs k, s =>
+    match expandCall e vs tc with                      -- the local macro, run on the call's tokens
+    | none => .error .noRule
+    | some (us, names) =>
+      match passNames fr names with
       | .error er => .error er
+      | .ok tail =>
+        match callee (us.map Slot.val ++ tail) s with
+        | .ok (r, s') => runG e callee fr (k r) s'
+        | .error er => .error er
 
 /-- The inner `fn _lambda_name_` with `fuel` nested activations allowed. -/
 def evalG (e : Expansion) (body : Body) (fuel : Nat) (xs : List Slot) (s : Store) : Res :=
